@@ -22,7 +22,7 @@ def gen(seed, tier):
         if fl == "threading":
             steps = rng.choice([[["block"]], [["hb", 0.5, None]], [["sleep", 0.3], ["return", "none"]]])
         else:
-            opts = [[["hb", 0.5, None]], [["block"]], [["sleep", 0.3], ["return", "none"]], [["spin", 4], ["block"]], [["hb", 0.125, None]]]
+            opts = [[["hb", 0.5, None]], [["block"]], [["sleep", 0.3], ["return", "none"]], [["spin", 4], ["block"]], [["hb", 0.125, None]], [["swallow", rng.choice([1, 2, 3])]], [["park"]]]
             if allow_spin:
                 opts.append([["spin-forever"]])
             steps = rng.choice(opts)
@@ -46,6 +46,8 @@ def gen(seed, tier):
         payloads.append(spec)
     for op in late:
         dscript += [["sleep", rng.choice([0.0, 0.0, 0.05, 0.3])], op]
+    if rng.random() < 0.3:
+        dscript += [["gc"]]
     trig = rng.choice(["fail-asyncio", "fail-trio", "fail-threading", "sigint", "stop", "shutdown", "shutdown-thread-payload", "ki-asyncio", "ki-threading", "fail-two"])
     t = rng.choice([0.0, 0.0, 0.01, 0.2, 0.5, 1.0, 1.3])
     just_started = [p["id"] for p in payloads if p.get("via") in ("adopt", "service") and p["flavour"] != "threading"]
